@@ -186,6 +186,12 @@ def check(prop: str, tier: str) -> int:
         print(f"no harness registered for {prop}")
         return 2
     jobs: list[Job] = []
+    only = os.environ.get("VERIF_ONLY", "")
+    if only:
+        # development aid (never set by the registered commands): restrict the
+        # run to the harnesses whose name contains the given text
+        hs = [h for h in hs if only in h.key]
+        print(f"note: VERIF_ONLY={only}: partial run, not a verdict for {prop}")
     for h in hs:
         for sh in h.shards(prop, tier):
             jobs.append(Job(h, dict(sh), tier, prop))
@@ -277,8 +283,9 @@ def check(prop: str, tier: str) -> int:
 
     from . import evidence
 
-    evidence.write(prop, tier, seed, hs, jobs, violations, harness_errors, nonrepro,
-                   known_hits, time.time() - t0)
+    if not only and not os.environ.get("VERIF_SURVEY") and not os.environ.get("VERIF_REPO"):
+        evidence.write(prop, tier, seed, hs, jobs, violations, harness_errors, nonrepro,
+                       known_hits, time.time() - t0)
 
     if violations:
         for p in violations:
